@@ -40,9 +40,11 @@ Proof. destruct L as [|l]; cbn [chunks concat]; [apply app_nil_r | apply concat_
 
 (* ---------------------------------------------------------------- generic *)
 Section Refinement.
-  Context {state inp raw sbytes token ctoken V : Type}.
+  Context {state inp raw mid sbytes token ctoken V : Type}.
   Variable step : state -> inp -> tres state.
-  Variable cast_p cast_h : raw -> inp + frame.
+  Variable cast_p : raw -> inp + frame.
+  Variable cast1 : raw -> mid + frame.
+  Variable cast2 : callinfo -> mid -> inp + frame.
   Variable ser : state -> sbytes.
   Variable deser : sbytes -> option state.
   Variable seal_cur : bytes * sbytes -> token.
@@ -57,13 +59,15 @@ Section Refinement.
   Variable schema_of : callinfo -> bytes.
   Variable refusal : frame.
   Variable vw : bytes -> frame -> list V.
-  Variable cid schema : bytes.
+  Variable info : callinfo.
+  Variable schema : bytes.
+  Let cid := ci_id info.
 
   Hypothesis Hgob : forall s, deser (ser s) = Some s.
   Hypothesis Hcur : forall x, open_cur (seal_cur x) = Some x.
   Hypothesis Hcall : forall x, open_call (seal_call x) = Some x.
 
-  Let info := {| ci_id := cid; ci_method := mth; ci_schema := schema |}.
+  Hypothesis Hmth : ci_method info = mth.
   Hypothesis Hschema : schema_of info = schema.
 
   Lemma resolve_ok c :
@@ -71,10 +75,10 @@ Section Refinement.
     exists c', resolve open_call cmax c cid (seal_call info) = (Some info, c') /\ cache_ok cid info c'.
   Proof.
     intro Hc. unfold resolve, cget. destruct cmax as [|m].
-    - rewrite Hcall. cbn [ci_id info]. rewrite beqb_refl. exists c. split; [reflexivity | exact Hc].
+    - rewrite Hcall. fold cid. rewrite beqb_refl. exists c. split; [reflexivity | exact Hc].
     - destruct (cfind cid c) as [v|] eqn:E.
       + apply Hc in E. subst v. eexists; split; [reflexivity | apply cache_ok_front].
-      + rewrite Hcall. cbn [ci_id info]. rewrite beqb_refl. eexists; split; [reflexivity|].
+      + rewrite Hcall. fold cid. rewrite beqb_refl. eexists; split; [reflexivity|].
         now apply cache_ok_cput.
   Qed.
 
@@ -87,7 +91,7 @@ Section Refinement.
   Proof.
     intro Hc. unfold open_request. rewrite Hcur, Hgob.
     destruct (resolve_ok c Hc) as (c' & Hr & Hc'). rewrite Hr.
-    cbn [ci_method info]. rewrite beqb_refl. now exists c'.
+    rewrite Hmth, beqb_refl. now exists c'.
   Qed.
 
   (* ---- exchange *)
@@ -95,37 +99,42 @@ Section Refinement.
   Hypothesis Hcastvw : forall r e, cast_p r = inr e -> vw [] e = vw schema e.
 
   Lemma exch_client_view ins :
-    (forall r, In r ins -> cast_h r = cast_p r) ->
+    (forall r, In r ins -> cast_http cast1 cast2 info r = cast_p r) ->
     forall k caches s, caches_ok cid info caches ->
-    resps_view vw (exch_client step cast_h ser deser seal_cur open_cur open_call cmax route mth schema_of refusal
+    resps_view vw (exch_client step cast1 cast2 ser deser seal_cur open_cur open_call cmax route mth schema_of refusal
                      k caches (seal_cur (cid, ser s)) (seal_call info) ins)
     = flat_map (vw schema) (pipe_loop step cast_p s ins).
   Proof.
     induction ins as [|r rest IH]; intros Hc k caches s Hok; [reflexivity|].
     cbn [exch_client pipe_loop]. unfold exchange_req.
-    rewrite (Hc r (or_introl eq_refl)).
-    assert (Hc' : forall r0, In r0 rest -> cast_h r0 = cast_p r0) by (intros r0 Hr0; apply Hc; now right).
-    destruct (cast_p r) as [i|e] eqn:Ec.
+    pose proof (Hc r (or_introl eq_refl)) as Hr. unfold cast_http in Hr.
+    assert (Hc' : forall r0, In r0 rest -> cast_http cast1 cast2 info r0 = cast_p r0) by (intros r0 Hr0; apply Hc; now right).
+    assert (Hrefused : forall (c0 : cache) e, cast_p r = inr e ->
+              resps_view vw [@refused token e] = flat_map (vw schema) [e]).
+    { intros c0 e Ec. rewrite resps_view_cons. unfold refused. cbn [resp_schema rs_class rs_frames flat_map].
+      change (resps_view vw []) with (@nil V). rewrite (Hcastvw r e Ec). apply app_nil_r. }
+    destruct (cast1 r) as [m|e].
     - destruct (open_request_ok (caches (route k)) s (Hok _)) as (c' & Ho & Hc'').
-      rewrite Ho. destruct (step s i) as [s' outs fin|e] eqn:Es.
-      + apply Hnofin in Es. subst fin. cbn [rs_tok].
-        rewrite resps_view_cons. cbn [resp_schema rs_class rs_schema rs_frames].
-        rewrite Hschema, (IH Hc'), flat_map_app; [reflexivity|]. now apply caches_ok_upd.
-      + cbn [rs_tok]. rewrite resps_view_cons. cbn [resp_schema rs_class rs_schema rs_frames].
-        rewrite Hschema. change (resps_view vw []) with (@nil V). apply app_nil_r.
-    - cbn [refused rs_tok]. rewrite resps_view_cons. unfold refused. cbn [resp_schema rs_class rs_frames flat_map].
-      change (resps_view vw []) with (@nil V). rewrite (Hcastvw r e Ec). apply app_nil_r.
+      rewrite Ho. destruct (cast2 info m) as [i|e]; rewrite <- Hr.
+      + destruct (step s i) as [s' outs fin|e] eqn:Es.
+        * apply Hnofin in Es. subst fin. cbn [rs_tok].
+          rewrite resps_view_cons. cbn [resp_schema rs_class rs_schema rs_frames].
+          rewrite Hschema, (IH Hc'), flat_map_app; [reflexivity|]. now apply caches_ok_upd.
+        * cbn [rs_tok]. rewrite resps_view_cons. cbn [resp_schema rs_class rs_schema rs_frames].
+          rewrite Hschema. change (resps_view vw []) with (@nil V). apply app_nil_r.
+      + cbn [refused rs_tok]. apply (Hrefused c'). now symmetry.
+    - rewrite <- Hr. cbn [refused rs_tok]. apply (Hrefused (caches (route k))). now symmetry.
   Qed.
 
   Theorem http_exch_view caches s0 pre ins :
-    (forall r, In r ins -> cast_h r = cast_p r) ->
+    (forall r, In r ins -> cast_http cast1 cast2 info r = cast_p r) ->
     caches_ok cid info caches ->
-    resps_view vw (http_exch step cast_h ser deser seal_cur open_cur seal_call open_call cmax route mth schema_of refusal
-                     cid schema caches s0 pre ins)
+    resps_view vw (http_exch step cast1 cast2 ser deser seal_cur open_cur seal_call open_call cmax route mth schema_of refusal
+                     info schema caches s0 pre ins)
     = flat_map (vw schema) (pre ++ pipe_loop step cast_p s0 ins).
   Proof.
     intros Hc Hok. unfold http_exch. rewrite resps_view_cons.
-    cbn [resp_schema rs_class rs_schema rs_frames]. fold info.
+    cbn [resp_schema rs_class rs_schema rs_frames]. fold cid.
     rewrite (exch_client_view ins Hc), flat_map_app; [reflexivity|].
     apply caches_ok_upd; [exact Hok|]. apply cache_ok_cput, Hok.
   Qed.
@@ -172,7 +181,7 @@ Section Refinement.
   Theorem http_prod_view caches s0 pre ticks :
     caches_ok cid info caches ->
     resps_view vw (http_prod step ser deser seal_cur open_cur seal_call open_call L cut cmax route mth schema_of refusal
-                     cid schema caches s0 pre ticks)
+                     info schema caches s0 pre ticks)
     = flat_map (vw schema) (pre ++ pipe_loop step (@inl inp frame) s0 ticks).
   Proof.
     intro Hok. unfold http_prod.
@@ -181,7 +190,7 @@ Section Refinement.
     rewrite resps_view_cons. unfold token_resp at 1. cbn [resp_schema rs_class rs_schema rs_frames].
     rewrite app_assoc, (flat_map_app _ (pre ++ d)). f_equal.
     destruct stop as [| |s']; cbn [token_resp rs_tok after]; try reflexivity.
-    fold info. apply prod_client_view; [lia|].
+    fold cid. apply prod_client_view; [lia|].
     apply caches_ok_upd; [exact Hok|]. apply cache_ok_cput, Hok.
   Qed.
 End Refinement.
@@ -254,32 +263,47 @@ Qed.
 Lemma hdr_streams_len i : (length (hdr_streams i) <= 1)%nat.
 Proof. unfold hdr_streams. destruct (hdr i); cbn [length]; lia. Qed.
 
-Lemma http_resps_cons i : exists r0 rest, http_resps i = r0 :: rest.
+Lemma http_resps_cons lg i : exists r0 rest, http_resps_gen lg i = r0 :: rest.
 Proof.
-  unfold http_resps. destruct (is_producer (i_kind i)).
+  unfold http_resps_gen. destruct (is_producer (i_kind i)).
   - unfold http_prod. destruct (produce _ _ _ _ _ _ _) as [[fs stop] rest]. eauto.
   - unfold http_exch. eauto.
 Qed.
 
-Lemma http_resps_view i :
-  cast_safe i = true -> resps_view vf (http_resps i) = flat_map (vf out_schema) (pre [] i ++ loop i).
+(* the two HTTP casts of the repaired code compose to the pipe's cast, for every
+   method kind and every input; the legacy code only where [cast_safe] *)
+Lemma casts_agree lg i r :
+  is_producer (i_kind i) = false -> In r (raws i) -> lg = false \/ cast_safe i = true ->
+  cast_http (cast_reg (i_kind i)) cast_rt (call_info lg (i_kind i)) r = cast_pipe r.
 Proof.
-  intro Hs. unfold http_resps, loop. destruct (is_producer (i_kind i)) eqn:Ep.
+  intros Ep Hin Hs. unfold raws in Hin. apply in_map_iff in Hin as (v & <- & _).
+  unfold cast_http, cast_reg, cast_rt, call_info. cbn [ci_inschema]. rewrite Ep.
+  destruct (is_dynamic (i_kind i)) eqn:Ed.
+  - destruct lg.
+    + destruct Hs as [Hs|Hs]; [discriminate Hs|]. unfold cast_safe in Hs. rewrite Ep, Ed in Hs.
+      cbn [negb orb andb] in *. destruct (i_col i); try discriminate Hs. reflexivity.
+    + reflexivity.
+  - rewrite andb_false_r. cbn [andb]. unfold cast_pipe. cbn [fst snd]. destruct (i_col i); reflexivity.
+Qed.
+
+Lemma http_resps_view lg i :
+  lg = false \/ cast_safe i = true ->
+  resps_view vf (http_resps_gen lg i) = flat_map (vf out_schema) (pre [] i ++ loop i).
+Proof.
+  intro Hs. unfold http_resps_gen, loop. destruct (is_producer (i_kind i)) eqn:Ep.
   - apply http_prod_view; try reflexivity. intro n. apply cache_ok_nil.
   - apply http_exch_view; try reflexivity.
     + exact sstep_exch_nofin.
     + intros r e H. unfold cast_pipe in H. destruct (fst r); inversion H; reflexivity.
-    + intros r Hin. unfold raws in Hin. apply in_map_iff in Hin as (v & <- & _).
-      unfold cast_http. unfold cast_safe in Hs. rewrite Ep in Hs.
-      destruct (is_dynamic (i_kind i)); [|reflexivity].
-      cbn [negb orb] in Hs. destruct (i_col i); try discriminate Hs. reflexivity.
+    + intros r Hin. now apply casts_agree.
     + intro n. apply cache_ok_nil.
 Qed.
 
-Lemma views_agree i : cast_safe i = true -> pipe_view (pipe_obs i) = http_view (http_obs i).
+Lemma views_agree lg i :
+  lg = false \/ cast_safe i = true -> pipe_view (pipe_obs i) = http_view (http_obs_gen lg i).
 Proof.
-  intro Hs. unfold pipe_obs, http_obs. destruct (i_initfail i) as [f|]; [reflexivity|].
-  destruct (http_resps_cons i) as (r0 & rest & E). pose proof (http_resps_view i Hs) as K.
+  intro Hs. unfold pipe_obs, http_obs_gen. destruct (i_initfail i) as [f|]; [reflexivity|].
+  destruct (http_resps_cons lg i) as (r0 & rest & E). pose proof (http_resps_view lg i Hs) as K.
   rewrite E in K |- *. cbn [map].
   rewrite http_view_with_header, pipe_view_with_header by apply hdr_streams_len.
   f_equal. rewrite render_view, map_render_view, <- resps_view_cons, K.
@@ -287,19 +311,27 @@ Proof.
   now rewrite app_nil_r, !flat_map_app, flat_vf_pre, flat_vf_stamp.
 Qed.
 
-Lemma model_meets_spec i : cast_safe i = true -> spec_ok i (model i) = true.
+Lemma model_meets_spec i : spec_ok i (model i) = true.
 Proof.
-  intro Hs. unfold spec_ok, model. cbn [o_pipe o_http]. rewrite (views_agree i Hs). apply view_eqb_refl.
+  unfold spec_ok, model, http_obs. cbn [o_pipe o_http]. rewrite (views_agree false i (or_introl eq_refl)). apply view_eqb_refl.
 Qed.
 
-(* the violation in the code as it stands: a dynamic exchange method receives
-   {x:int32}; the pipe casts it to the runtime input schema {x:int64}, the HTTP
-   path has no registered schema to cast against and hands it over as sent *)
+Lemma legacy_model_meets_spec_where_cast_safe i : cast_safe i = true -> spec_ok i (legacy_model i) = true.
+Proof.
+  intro Hs. unfold spec_ok, legacy_model. cbn [o_pipe o_http]. rewrite (views_agree true i (or_intror Hs)). apply view_eqb_refl.
+Qed.
+
+(* the violation in the code before the repair: a dynamic exchange method receives
+   {x:int32} (or a field named y); the pipe casts it to (refuses it against) the
+   runtime input schema {x:int64}, the HTTP path had no registered schema to cast
+   against and handed it over as sent *)
 Definition emit_turn (v : Z) : tscript := {| t_logs := []; t_act := AEmit; t_value := v; t_meta := [] |}.
-Definition dyn_cast_witness : input :=
+Definition dyn_cast_witness (col : coltype) : input :=
   {| i_kind := MDynExch; i_reqid := str "rq"; i_loglevel := []; i_initlogs := []; i_initfail := None; i_header := None;
-     i_turns := [emit_turn 1; emit_turn 2]; i_col := CI32; i_ins := [[10%Z]; [20%Z; 1%Z]];
+     i_turns := [emit_turn 1; emit_turn 2]; i_col := col; i_ins := [[10%Z]; [20%Z; 1%Z]];
      i_L := 0; i_capevery := false; i_cmax := 4096; i_route := [0%nat; 1%nat]; i_compress := false |}.
 
-Lemma dyn_cast_refuted : cast_safe dyn_cast_witness = false /\ spec_ok dyn_cast_witness (model dyn_cast_witness) = false.
+Lemma dyn_cast_legacy_refuted :
+  spec_ok (dyn_cast_witness CI32) (legacy_model (dyn_cast_witness CI32)) = false
+  /\ spec_ok (dyn_cast_witness CBadName) (legacy_model (dyn_cast_witness CBadName)) = false.
 Proof. split; vm_compute; reflexivity. Qed.
